@@ -1032,7 +1032,14 @@ def call_method(I, o, name, args, kw, st, n):
         if name == "update":
             a = args[0] if args else DictVal(kw)
             if isinstance(a, DictVal): o.d.update(a.d); o.open = o.open or a.open
-            else: o.open = True
+            else:
+                # an iterable of (key, value) pairs
+                from .absint import _concrete_seq
+                seq = _concrete_seq(a)
+                pairs = [(_concrete_seq(p) if not isinstance(p, tuple) else p) for p in seq] if seq is not None else None
+                if pairs is not None and all(p is not None and len(p) == 2 and lm.dkey(p[0]) is not None for p in pairs):
+                    for k_, v_ in pairs: o.d[lm.dkey(k_)] = v_
+                else: o.open = True
             return None
         if name == "copy":
             r = DictVal(o.d, o.open); return r
